@@ -54,6 +54,14 @@ func VfSelf_Language() {
 	keys := []string{"b:1", "a:2", "a:1"}
 	sort.Strings(keys)
 	nd.Assert(keys[0] == "a:1" && keys[1] == "a:2" && keys[2] == "b:1", "sort.Strings")
+	type kv struct {
+		k string
+		v int
+	}
+	kvs := []kv{{"c", 2}, {"a", 2}, {"b", 1}, {"d", 1}}
+	sort.SliceStable(kvs, func(i, j int) bool { return kvs[i].v < kvs[j].v })
+	nd.Assert(kvs[0].k == "b" && kvs[1].k == "d" && kvs[2].k == "c" && kvs[3].k == "a", "sort.SliceStable model (multi-cell elements, stability)")
+	nd.Assert(sort.SliceIsSorted(kvs, func(i, j int) bool { return kvs[i].v < kvs[j].v }) && !sort.SliceIsSorted(kvs, func(i, j int) bool { return kvs[i].k < kvs[j].k }), "sort.SliceIsSorted model")
 	// maps, defers, recover, channels, select
 	m := map[string]int{"a": 1}
 	m["b"] = 2
